@@ -239,8 +239,23 @@ def wraps : Kind → Bool
   | .unaryOp | .binOp | .boolOp | .compare | .tuple | .generatorExp | .namedExpr | .await => true
   | _ => false
 
-/-- child `c` in slot `p` is fine: either it needs no parentheses there, or its visitor supplies them -/
-def slotOK (p : Pos) (c : Expr) : Bool := !needsParens p c.ck || (wraps c.kind && hasVisitor c.kind)
+/-- the slots whose occupant the parent's visitor writes through `visit_operand` (a conditional expression or a
+lambda standing there is parenthesised by the parent) -/
+def operandSlot : Pos → Bool
+  | .attrValue | .subValue | .callFunc | .unaryNot | .unaryOther
+  | .binLPow | .binRPow | .binLTerm | .binRTerm | .binLArith | .binRArith | .binLShift | .binRShift
+  | .binLBand | .binRBand | .binLBxor | .binRBxor | .binLBor | .binRBor
+  | .boolAnd | .boolOr | .cmpLeft | .cmpRight | .ifBody | .ifTest
+  | .starredValue | .callStarValue | .dictStar | .compIter | .compIf => true
+  | _ => false
+
+/-- the text that stands in slot `p` for child `c` whose own text is `t` -/
+def inSlot (p : Pos) (c : Expr) (t : Toks) : Toks := if operandSlot p then wrapOperand c t else t
+
+/-- child `c` in slot `p` is fine: it needs no parentheses there, or its own visitor supplies them, or it is a
+conditional expression / lambda in a slot written through `visit_operand` -/
+def slotOK (p : Pos) (c : Expr) : Bool :=
+  !needsParens p c.ck || (wraps c.kind && hasVisitor c.kind) || (operandSlot p && isWeak c)
 
 /-- guard of `print_well_parenthesised_partial`: every child of every node is fine in its slot -/
 def parenGuardLocal (e : Expr) : Bool := e.children.all fun pc => slotOK pc.1 pc.2
